@@ -16,6 +16,24 @@ CHECKS = {
             "Coq proof (model = spec, all inputs) + extracted-model correspondence + extracted-spec oracle", "§3 C05"),
 }
 
+CHECKS.update({
+    "C01": ("proof", "unbounded theorem: the models of + - checked_add checked_sub (Decimal/Decimal and both integer-operand bodies) are "
+            "functions of the specification (exact sum at scale max(p,q) iff aligned operands and sum fit i128, else panic / None, "
+            "checked_ never panics) for all well-formed operands and all i128 integer operands; implementation tied by correspondence "
+            "(all 361 scale pairs, boundary sums at both i128 ends, all 9 integer types)",
+            "Coq proof (model = spec, all inputs) + extracted-model correspondence + extracted-spec oracle", "§3 C01"),
+    "C08": ("proof", "unbounded theorems: partial_cmp = Some(value order), eq = value equality, all derived operators, min/max, and the "
+            "four integer-comparison macro bodies for every integer of every type incl. alignment overflow; order laws proved on the "
+            "value order; rkyv archive identity is exercised by the tie only (partial, see DESIGN)",
+            "Coq proof (model = spec, all inputs; order laws) + extracted-model correspondence + extracted-spec oracle", "§3 C08"),
+    "C14": ("proof", "unbounded theorems: T::try_from(Decimal) for the ten integer types = specification (Ok iff integral and in range, "
+            "NotAnIntValue first, ValueOutOfRange otherwise); From<int>, TryFrom<u128>",
+            "Coq proof (model = spec, all inputs) + extracted-model correspondence + extracted-spec oracle", "§3 C14"),
+    "C15": ("proof", "unbounded theorems: floor/ceil/trunc/fract/abs/neg/sign predicates = specification; log10 bit trick = floor(log10) "
+            "on all 0<v<2^128 (less_than_5 by complete sweep of 1..99999 inside Coq, cascade by proof); magnitude incl. zero",
+            "Coq proof (model = spec, all inputs; finite sweep by vm_compute for the 17-bit kernel) + correspondence + oracle", "§3 C15"),
+})
+
 NOT_YET = {}
 
 def main():
